@@ -519,3 +519,154 @@ Proof.
               isv4 plen a Halt masks a Hs Hle (fun _ _ => eq_refl) Hall) as [r [Er Hr]].
   rewrite Er. f_equal. apply cdb_result_lpm; auto.
 Qed.
+
+(* ---------------------------------------------------------------- names *)
+
+Definition wf_labelsb (ls : list bytes) : bool := forallb (fun l => negb (length l =? 0)%nat) ls.
+
+Lemma labels_eqb_eq : forall a b, labels_eqb a b = true <-> a = b.
+Proof.
+  induction a as [|x a IH]; destruct b as [|y b]; simpl; split; intro H; try discriminate; auto.
+  - apply Bool.andb_true_iff in H. destruct H as [H1 H2]. apply bytes_eqb_eq in H1. apply IH in H2. congruence.
+  - inversion H; subst. rewrite bytes_eqb_refl. simpl. apply IH. reflexivity.
+Qed.
+
+Lemma app_inj_len : forall {A} (l l' x y : list A), length l = length l' -> l ++ x = l' ++ y -> l = l' /\ x = y.
+Proof.
+  induction l as [|a l IH]; destruct l' as [|b l']; simpl; intros x y Hl H; try discriminate; auto.
+  inversion H; subst. destruct (IH l' x y) as [-> ->]; auto.
+Qed.
+
+Lemma pack_labels_inj : forall ls ls', wf_labelsb ls = true -> wf_labelsb ls' = true ->
+  pack_labels ls = pack_labels ls' -> ls = ls'.
+Proof.
+  induction ls as [|l ls IH]; destruct ls' as [|l' ls']; simpl; intros W W' H; auto.
+  - apply Bool.andb_true_iff in W'. destruct W' as [W1 _]. inversion H as [[E _]].
+    unfold blen in E. destruct l'; [discriminate W1|discriminate E].
+  - apply Bool.andb_true_iff in W. destruct W as [W1 _]. inversion H as [[E _]].
+    unfold blen in E. destruct l; [discriminate W1|discriminate E].
+  - apply Bool.andb_true_iff in W, W'. destruct W as [W1 W2], W' as [W1' W2'].
+    inversion H as [[E1 E2]]. unfold blen in E1. apply Nnat.Nat2N.inj in E1.
+    destruct (app_inj_len _ _ _ _ E1 E2) as [-> E3]. f_equal. apply IH; auto.
+Qed.
+
+(* the candidate keys of the v1 / CDB map search: the exact name, then the wildcard of every strict ancestor *)
+Fixpoint cand_keys (mtype : bytes) (ls : list bytes) (first : bool) : list bytes :=
+  (mtype ++ pack_labels ls ++ [suffix_of (negb first)]) ::
+  match ls with [] => [] | _ :: p => cand_keys mtype p false end.
+
+Lemma skipn_app_exact : forall {A} (l x : list A), skipn (length l) (l ++ x) = x.
+Proof. induction l; simpl; auto. Qed.
+
+Lemma map_keys_pack : forall ls fuel mtype first, wf_labelsb ls = true -> (length ls < fuel)%nat ->
+  map_keys fuel mtype (pack_labels ls) first = Ok (cand_keys mtype ls first).
+Proof.
+  induction ls as [|l ls IH]; intros fuel mtype first W Hf; (destruct fuel as [|fuel]; [lia|]).
+  - reflexivity.
+  - simpl in W. apply Bool.andb_true_iff in W. destruct W as [W1 W2].
+    cbn [pack_labels map_keys cand_keys].
+    assert (E0 : (blen l =? 0) = false).
+    { unfold blen. destruct l; [discriminate W1|reflexivity]. }
+    rewrite E0. unfold blen. rewrite Nnat.Nat2N.id.
+    assert (E1 : (length l <=? length (l ++ pack_labels ls))%nat = true).
+    { apply Nat.leb_le. rewrite app_length. lia. }
+    rewrite E1, skipn_app_exact, IH; auto. simpl in Hf. lia.
+Qed.
+
+Lemma pack_labels_length : forall ls, (length ls < length (pack_labels ls))%nat.
+Proof. induction ls as [|l ls IH]; simpl; [lia|]. rewrite app_length. lia. Qed.
+
+(* ---------------------------------------------------------------- map choice: v1 keys and CDB *)
+
+Section MapChoiceExact.
+  Variable decls : list mapdecl.
+  Variable kind : N.
+  Variable db : list kv.
+  Variable enc : bytes -> bytes.     (* how a value is stored: mv1 for RocksDB, identity for CDB *)
+  (* the map records of the database are exactly the declarations *)
+  Hypothesis Hget : forall n wild, wf_labelsb n = true ->
+    get db ([0; kind] ++ pack_labels n ++ [suffix_of wild]) =
+    option_map (fun id => enc (mapid_bytes id)) (lookup_decl decls kind wild n).
+
+  Lemma wf_tail : forall l ls, wf_labelsb (l :: ls) = true -> wf_labelsb ls = true.
+  Proof. simpl. intros l ls H. apply Bool.andb_true_iff in H. tauto. Qed.
+
+  Lemma cdb_find_map_wild : forall ls fuel, wf_labelsb ls = true -> (length ls < fuel)%nat ->
+    enc = (fun v => v) ->
+    cdb_find_map fuel db [0; kind] (pack_labels ls) false =
+    Ok (option_map mapid_bytes (match lookup_decl decls kind true ls with Some m => Some m | None => nearest_wild decls kind ls end)).
+  Proof.
+    induction ls as [|l ls IH]; intros fuel W Hf He; (destruct fuel as [|fuel]; [lia|]).
+    - cbn [cdb_find_map]. change (negb false) with true. rewrite (Hget [] true W), He.
+      destruct (lookup_decl decls kind true []); reflexivity.
+    - cbn [cdb_find_map]. change (negb false) with true. rewrite (Hget (l :: ls) true W), He.
+      destruct (lookup_decl decls kind true (l :: ls)) eqn:L; [reflexivity|].
+      cbn [option_map pack_labels nearest_wild].
+      simpl in W. apply Bool.andb_true_iff in W. destruct W as [W1 W2].
+      assert (E0 : (blen l =? 0) = false) by (unfold blen; destruct l; [discriminate W1|reflexivity]).
+      rewrite E0. unfold blen. rewrite Nnat.Nat2N.id.
+      assert (E1 : (length l <=? length (l ++ pack_labels ls))%nat = true)
+        by (apply Nat.leb_le; rewrite app_length; lia).
+      rewrite E1, skipn_app_exact. rewrite IH; auto; [|simpl in Hf; lia].
+      destruct (lookup_decl decls kind true ls); reflexivity.
+  Qed.
+
+  (* CDB: exact-name map first, else the nearest enclosing wildcard map *)
+  Lemma cdb_find_map_choice : forall ls, wf_labelsb ls = true -> enc = (fun v => v) ->
+    cdb_find_map (S (length (pack_labels ls))) db [0; kind] (pack_labels ls) true =
+    Ok (option_map mapid_bytes (map_choice decls kind ls)).
+  Proof.
+    intros ls W He. unfold map_choice. cbn [cdb_find_map]. change (negb true) with false.
+    rewrite (Hget ls false W), He.
+    destruct (lookup_decl decls kind false ls) eqn:L; [reflexivity|]. cbn [option_map].
+    destruct ls as [|l ls].
+    - reflexivity.
+    - cbn [pack_labels nearest_wild].
+      pose proof W as W'. simpl in W. apply Bool.andb_true_iff in W. destruct W as [W1 W2].
+      assert (E0 : (blen l =? 0) = false) by (unfold blen; destruct l; [discriminate W1|reflexivity]).
+      rewrite E0. unfold blen. rewrite Nnat.Nat2N.id.
+      assert (E1 : (length l <=? length (l ++ pack_labels ls))%nat = true)
+        by (apply Nat.leb_le; rewrite app_length; lia).
+      rewrite E1, skipn_app_exact. rewrite cdb_find_map_wild; auto.
+      + destruct (lookup_decl decls kind true ls); reflexivity.
+      + pose proof (pack_labels_length ls). cbn [length]. rewrite app_length. lia.
+  Qed.
+
+  Lemma mv1_id : forall id : mapid,
+    rd_u32le (mv1 (mapid_bytes id)) = Some 2 /\ firstn 2 (skipn 4 (mv1 (mapid_bytes id))) = mapid_bytes id /\
+    length (mv1 (mapid_bytes id)) = 6%nat.
+  Proof. intros [x y]. repeat split. Qed.
+
+  Lemma rdb_find_first_wild : forall ls, wf_labelsb ls = true -> enc = mv1 ->
+    rdb_find_first db (cand_keys [0; kind] ls false) =
+    Ok (option_map mapid_bytes (match lookup_decl decls kind true ls with Some m => Some m | None => nearest_wild decls kind ls end)).
+  Proof.
+    induction ls as [|l ls IH]; intros W He.
+    - cbn [cand_keys rdb_find_first]. change (negb false) with true. rewrite (Hget [] true W), He.
+      destruct (lookup_decl decls kind true []) as [id|]; [|reflexivity].
+      cbn [option_map]. destruct (mv1_id id) as [R1 [R2 R3]]. rewrite R3, R1, R2. reflexivity.
+    - cbn [cand_keys rdb_find_first]. change (negb false) with true. rewrite (Hget (l :: ls) true W), He.
+      destruct (lookup_decl decls kind true (l :: ls)) as [id|] eqn:L.
+      + cbn [option_map]. destruct (mv1_id id) as [R1 [R2 R3]]. rewrite R3, R1, R2. reflexivity.
+      + cbn [option_map nearest_wild]. rewrite IH; [|apply (wf_tail l ls W)|exact He].
+        destruct (lookup_decl decls kind true ls); reflexivity.
+  Qed.
+
+  (* RocksDB v1 keys: exact-name map first, else the nearest enclosing wildcard map *)
+  Lemma v1_find_map_choice : forall ls, wf_labelsb ls = true -> enc = mv1 ->
+    v1_find_map db [0; kind] (pack_labels ls) = Ok (option_map mapid_bytes (map_choice decls kind ls)).
+  Proof.
+    intros ls W He. unfold v1_find_map.
+    rewrite map_keys_pack; auto; [|pose proof (pack_labels_length ls); lia].
+    cbn [rbind]. unfold map_choice.
+    destruct ls as [|l ls].
+    - cbn [cand_keys rdb_find_first]. change (negb true) with false. rewrite (Hget [] false W), He.
+      destruct (lookup_decl decls kind false []) as [id|]; [|reflexivity].
+      cbn [option_map]. destruct (mv1_id id) as [R1 [R2 R3]]. rewrite R3, R1, R2. reflexivity.
+    - cbn [cand_keys rdb_find_first]. change (negb true) with false. rewrite (Hget (l :: ls) false W), He.
+      destruct (lookup_decl decls kind false (l :: ls)) as [id|].
+      + cbn [option_map]. destruct (mv1_id id) as [R1 [R2 R3]]. rewrite R3, R1, R2. reflexivity.
+      + cbn [option_map nearest_wild]. rewrite rdb_find_first_wild; [|apply (wf_tail l ls W)|exact He].
+        destruct (lookup_decl decls kind true ls); reflexivity.
+  Qed.
+End MapChoiceExact.
